@@ -149,7 +149,7 @@ func contend(spec contendSpec) {
 		"generic_runs":   []int32{atomic.LoadInt32(&genericRuns[0]), atomic.LoadInt32(&genericRuns[1])},
 		"invalid_member": invalidProbe(), "name_prefix": namesProbe(), "custom_fn": customProbe(), "verbose_late": verboseProbe(),
 		"wide": wideProbe(), "ctx_err": ctxErrProbe(), "escaped_names": escapedProbe(), "suffix_and_empty_args": suffixProbe(), "long_wait": longProbe(spec.LongMs),
-		"rerequest_after_many": rerequestProbe(), "crowd": crowdProbe()})
+		"rerequest_after_many": rerequestProbe(), "crowd": crowdProbe(), "ambient": ambientProbe()})
 }
 
 // ---- a function of package ".../tasks.V2" and the method of type V2 in package ".../tasks" have
@@ -630,4 +630,91 @@ func genericDep[T any]() {
 	} else {
 		atomic.AddInt32(&genericRuns[1], 1)
 	}
+}
+
+// ---- the process's ambient state (working directory, file system, environment) changes between two requests for
+// the same dependency: a dependency is its function and its argument VALUES, nothing else; mg.F values are built
+// afresh at every request, as a magefile does (C01, C13, C14).
+var ambRuns [6]int32
+var ambSlowStarted = make(chan struct{})
+var ambSlowDone int32
+var ambSlowOnce sync.Once
+
+func ambPlain()           { atomic.AddInt32(&ambRuns[0], 1) }
+func ambPath(p string)    { atomic.AddInt32(&ambRuns[1], 1) }
+func ambFile(p string)    { atomic.AddInt32(&ambRuns[2], 1) }
+func ambTwo(a, b string)  { atomic.AddInt32(&ambRuns[3], 1) }
+func ambVar(xs ...string) { atomic.AddInt32(&ambRuns[4], 1) }
+func ambSlow() {
+	ambSlowOnce.Do(func() { close(ambSlowStarted) })
+	time.Sleep(300 * time.Millisecond)
+	atomic.AddInt32(&ambRuns[5], 1)
+	atomic.StoreInt32(&ambSlowDone, 1)
+}
+
+func ambientProbe() []string {
+	bad := []string{}
+	old, err := os.Getwd()
+	if err != nil {
+		return bad
+	}
+	dir, err := os.MkdirTemp("", "vpamb")
+	if err != nil {
+		return bad
+	}
+	defer os.RemoveAll(dir)
+	defer os.Chdir(old)
+	oldHome, hadHome := os.LookupEnv("HOME")
+	defer func() {
+		if hadHome {
+			os.Setenv("HOME", oldHome)
+		} else {
+			os.Unsetenv("HOME")
+		}
+		os.Unsetenv("VP_AMBIENT")
+	}()
+	os.Chdir(dir)
+	deps := func() []interface{} {
+		return []interface{}{ambPlain, mg.F(ambPath, "vpdist"), mg.F(ambFile, "./vpdist/out.bin"), mg.F(ambTwo, "vpdist", dir+"/vpdist"), mg.F(ambVar, "vpdist", "out.bin")}
+	}
+	steps := []string{}
+	check := func(step string) {
+		steps = append(steps, step)
+		for i, name := range []string{"ambPlain", `mg.F(ambPath, "vpdist")`, `mg.F(ambFile, "./vpdist/out.bin")`, `mg.F(ambTwo, "vpdist", <abs>/vpdist)`, `mg.F(ambVar, "vpdist", "out.bin")`} {
+			if got := atomic.LoadInt32(&ambRuns[i]); got != 1 {
+				bad = append(bad, fmt.Sprintf("%s ran %d times after [%s] (requested once per step; must run exactly once)", name, got, strings.Join(steps, "; ")))
+				atomic.StoreInt32(&ambRuns[i], 1)
+			}
+		}
+	}
+	mg.Deps(deps()...)
+	check("Deps in an empty directory")
+	os.Mkdir("vpdist", 0o755)
+	os.WriteFile("vpdist/out.bin", []byte("x"), 0o644)
+	mg.SerialDeps(deps()...)
+	check("the paths the arguments name now exist; SerialDeps")
+	os.Chdir("vpdist")
+	mg.CtxDeps(context.Background(), deps()...)
+	check("chdir vpdist; CtxDeps")
+	os.Setenv("VP_AMBIENT", "1")
+	os.Setenv("HOME", dir)
+	mg.SerialCtxDeps(context.Background(), deps()...)
+	check("HOME and another variable set; SerialCtxDeps")
+	os.Chdir(dir)
+	os.RemoveAll("vpdist")
+	mg.Deps(deps()...)
+	check("chdir back, the paths removed again; Deps")
+	// in flight elsewhere while the directory changes: the serial call waits for it and does not run it again
+	go mg.Deps(ambSlow)
+	<-ambSlowStarted
+	os.Chdir(old)
+	mg.SerialDeps(ambSlow)
+	if atomic.LoadInt32(&ambSlowDone) != 1 {
+		bad = append(bad, "SerialDeps(ambSlow) returned while ambSlow, in flight in a parallel Deps since before a chdir, had not finished")
+	}
+	time.Sleep(400 * time.Millisecond)
+	if got := atomic.LoadInt32(&ambRuns[5]); got != 1 {
+		bad = append(bad, fmt.Sprintf("ambSlow, requested by a parallel Deps and (after a chdir) by SerialDeps, ran %d times", got))
+	}
+	return bad
 }
